@@ -229,6 +229,9 @@ func matchTmpl(t []rseg, segs []string) (map[string]string, bool) {
 	b := map[string]string{}
 	for i, s := range t {
 		if s.v != "" {
+			if segs[i] == "" {
+				return nil, false // a path variable stands for a non-empty segment
+			}
 			b[s.v] = segs[i]
 		} else if s.lit != segs[i] {
 			return nil, false
@@ -518,6 +521,15 @@ func runC03(r *Report, rng *rand.Rand, thorough bool) {
 					if set.slash {
 						r.Dist["family=final-slash"]++
 						continue
+					}
+					// the segment of a variable that is followed by further segments left empty (/pets//toys/ball)
+					for i, sg := range rt.tmpl {
+						if sg.v != "" && i+1 < len(rt.tmpl) && rt.method != "connect" { // CONNECT targets with an empty segment make net/http's ServeMux panic (Go 1.26, not the generator's)
+							c := append([]string(nil), segs...)
+							c[i] = ""
+							add("empty-variable-segment", rt.method, c)
+							break
+						}
 					}
 					add("extra-segment", rt.method, append(append([]string(nil), segs...), "zz"))
 					if len(segs) > 1 {
